@@ -249,6 +249,50 @@ def issue(r, d, case, label_base, later=True):
     r.outcomes.add(digest([case['command'], case['op'].split('@')[0], err, (rep or {}).get('errno')]))
     if not err or snapshot(w) != before:
         d.discard()
+    if (not err and case['op'] not in ('valid', 'valid+start') and case['command'] in WAITABLE
+            and 'waiting' not in props and d.base == 'idle'):
+        # a corrupted request that is answered ok at once may still be refused later (the operation fails inside its
+        # coroutine): sent with waiting, the error reaches the client - and then nothing may have changed either
+        _issue_waiting(r, d, case, props, label_base)
+
+
+WAITABLE = ('add', 'decr', 'incr', 'kill', 'reload', 'restart', 'start', 'stop', 'rm', 'set', 'signal')
+
+
+def _issue_waiting(r, d, case, props, label_base):
+    w = d.get()
+    r.cases += 1
+    before = snapshot(w)
+    try:
+        rq = w.request(case['command'], **dict(props, waiting=True))
+        w.run(until=lambda x: rq.replied(), horizon=3.0)
+    except Abort as e:
+        r.fail('C11.no_exception', 'loop blocked: %s' % e, w.blocked_site(), case)
+        d.discard()
+        return
+    rep = rq.reply()
+    desc = lambda: '%s state=%s: %s %s (waiting) -> %r' % (case['op'], label_base, case['command'],       # noqa: E731
+                                                           json.dumps(props, default=repr)[:200], (rep or {}).get('reason'))
+    if rep is not None and rep.get('status') == 'error':
+        r.nontrivial.add(digest([case, label_base, 'waiting']))
+        after = snapshot(w)
+        diff = {k: (before[k], after[k]) for k in ('state', 'spawns', 'signals') if before[k] != after[k]}
+        r.check('C11.unchanged', not diff, lambda: desc() + ': refused (late) but the daemon changed: %s' % diff,
+                'commands.%s/failed-inside-the-operation' % case['command'], case, fp='%s-late-%s' % (case['command'], case['op']))
+        # ... and the daemon is not left wedged: the next state-changing request goes through
+        try:
+            nxt = w.request('stop', name='a', waiting=True)
+            why = w.run(until=lambda x: nxt.replied(), horizon=3.0)
+        except Abort as e:
+            r.fail('C11.no_exception', 'loop blocked after the refusal: %s' % e, w.blocked_site(), case)
+            d.discard()
+            return
+        r.check('C11.not_wedged', nxt.replied(),
+                lambda: desc() + ': after this refusal `stop a` (waiting) is not answered within 3 s (slot=%r)' % w.slot(),
+                'commands.%s/failed-inside-the-operation' % case['command'], case, fp='%s-wedged' % case['command'])
+    else:
+        r.ev('C11.accepted_not_judged', True)
+    d.discard()
 
 
 def run_shard(shard, tier):
